@@ -10,6 +10,7 @@ Expected(e) == IF e.kind = "wrapper" \/ e.n = 1 THEN WrapperDesign(e.U, e.of, e.
 Supported(e) == (e.kind = "wrapper") \/ ((\A j \in 1..Len(e.ports) : (e.ports[j].n \in {e.a, e.b}) => e.ports[j].w = 1) /\ (Len(e.bports) = 0))
 Clause(e) ==
   IF e.raised THEN (IF Supported(e) THEN "rejected" ELSE "")
+  ELSE IF ~Supported(e) THEN ""          \* nothing is specified for a non-scalar series port or a bundle-port unit that was accepted
   ELSE LET D == Expected(e) IN
        IF PkgFaults(e.P) # {} THEN "package_malformed:" \o ToString(PkgFaults(e.P))
        ELSE IF PLeafTable(e.P, e.P.top, <<>>) # LeafTable(D, D.top, <<>>) THEN "leaf_table"
